@@ -20,6 +20,9 @@
     (a real pipeline run: calls of all join instances in one global order, then what arrived at
      the output per stream; tag = index of the stream in the case)
 
+    c15.ascii <helper>            | 256 answers of the real ascii helper for bytes 0..255
+    c15.tpl <value>               | start / continue of go_panic, cs_exception, go_data_race (6 bits)
+
   The regular expressions (`c15.join`) and template names (`c15.jt`) are for the harness only:
   the model sees the oracle bits the harness computed with them.
 -/
@@ -28,6 +31,8 @@ import FileD.Model.Join
 import FileD.Spec.C15
 import FileD.Model.K8sMultiline
 import FileD.Spec.C15K8s
+import FileD.Model.JoinTemplates
+import FileD.Spec.C15Templates
 namespace FileD.DrvC15
 open FileD Tok FileD.Join
 
@@ -265,21 +270,55 @@ def handle (cmd : String) (args impl : List String) : Option (String × String) 
   | "c15.jt" => do
     let (max, r) ← pNat args
     let (ntpl, r) ← pNat r
-    let (tpls, r) ← pMany (fun ts => do
-        let (_, r) ← pBytes ts
+    let (tplsN, r) ← pMany (fun ts => do
+        let (name, r) ← pBytes ts
         let (n, r) ← pBool r
-        pure (n, r)) ntpl r
+        pure ((name, n), r)) ntpl r
+    let tpls := tplsN.map (·.2)
     let (path, r) ← pCounted pBytes r
     let (items, r) ← pCounted (pTItem ntpl) r
     if r ≠ [] then none
     let tcfg : TCfg := ⟨path, max, tpls⟩
     let t := trun tcfg TSt.init items
     let m := encTrace t.outs t.fin
+    -- the classifier bits of the case (computed by the real template functions) against the
+    -- modelled template functions: the oracle of join_template_eq_spec is tied here
+    let models := tplsN.map (fun (name, neg) => (JoinTemplates.template? name, neg))
+    let bitsOK := items.all (fun it =>
+      match it with
+      | .timeout _ => true
+      | .ev e =>
+        match JTree.dig e.root path with
+        | none => true
+        | some node =>
+          let v := asString node
+          ((models.zip (e.starts.zip e.conts)).all (fun ((mt, neg), (sb, cb)) =>
+            match mt with
+            | none => false
+            | some tp => tp.start v == sb && tp.cont v == cb && tp.negate == neg)))
     let p := match pImpl (impl.length + 1) impl with
       | some (outs, panicked) =>
-        if SpecC15.holds tcfg.join (SpecC15.resolve tcfg (-1) items) outs panicked then "ok" else "fail"
+        if !bitsOK then "fail:classifier"
+        else if SpecC15.holds tcfg.join (SpecC15.resolve tcfg (-1) items) outs panicked then "ok" else "fail"
       | none => "bad-impl"
     pure (m, p)
+  | "c15.ascii" =>
+    match args with
+    | [name] => do
+      let model ← JoinTemplates.helperTable name
+      let spec ← SpecC15Templates.helperSpec name
+      let m := unwords (model.map toString)
+      let p := if impl == spec.map toString then "ok" else "fail"
+      pure (m, p)
+    | _ => none
+  | "c15.tpl" => do
+    let (v, r) ← pBytes args
+    if r ≠ [] then none
+    let bits := [JoinTemplates.goPanicStartCheck v, JoinTemplates.goPanicContinueCheck v,
+                 JoinTemplates.sharpStartCheck v, JoinTemplates.sharpContinueCheck v,
+                 JoinTemplates.goDataRaceStartCheck v, JoinTemplates.goDataRaceFinishCheck v]
+    let m := unwords (bits.map ofBool)
+    pure (m, if impl == bits.map ofBool then "ok" else "fail")
   | "c15.k8s" => do
     let (split, r) ← pNat args
     let (max, r) ← pNat r
